@@ -57,14 +57,20 @@ Qed.
 Lemma get_id_desired d s : 0 < d → d ∉ used s → ∃ s', get_id d s = Some (d, s').
 Proof. intros Hd Hn. unfold get_id. destruct (decide _) as [|Hno]; [eauto|]. exfalso; apply Hno; done. Qed.
 
-Lemma discard_inv e s : 0 < e → Inv s → Inv (discard e s).
+(** Releasing any value (positive or not, in use or not) keeps the invariant: only positive IDs lower the hint. *)
+Lemma discard_inv e s : Inv s → Inv (discard e s).
 Proof.
-  intros He [Hp Hall]. unfold discard, Inv; simpl. destruct (decide (e < pos s)).
-  - split; [lia|]. intros j Hj. apply elem_of_difference. split; [apply Hall; lia|]. rewrite elem_of_singleton. lia.
+  intros [Hp Hall]. unfold discard, discard_g, Inv; simpl. destruct (decide (e < pos s)).
+  - destruct (bool_decide (0 < e)) eqn:E; simpl.
+    + apply bool_decide_eq_true in E. split; [lia|]. intros j Hj. apply elem_of_difference.
+      split; [apply Hall; lia|]. rewrite elem_of_singleton. lia.
+    + apply bool_decide_eq_false in E. split; [done|]. intros j Hj. apply elem_of_difference.
+      split; [apply Hall; lia|]. rewrite elem_of_singleton. lia.
   - split; [done|]. intros j Hj. apply elem_of_difference. split; [apply Hall; lia|]. rewrite elem_of_singleton. lia.
 Qed.
 
-(** Releasing a non-positive "ID" breaks the invariant only in a harmless direction: the hint moves
-    below 1 and the next scan may hand out 0 or a negative number. We record the exact condition. *)
-Lemma discard_inv_any e s : Inv s → e < 1 → pos (discard e s) = e.
-Proof. intros [Hp _] He. unfold discard; simpl. destruct (decide (e < pos s)); lia. Qed.
+(** Without the guard (the pinned tree) releasing a non-positive value moves the hint below 1 and the next
+    scan hands out a non-positive ID. *)
+Lemma discard_unguarded_refuted :
+  fst <$> get_id (-1) (discard_g false (-1) init) = Some (-1).
+Proof. vm_compute. reflexivity. Qed.
